@@ -83,6 +83,8 @@ Fixpoint disk_get (d : disk) (n : str) : option centry :=
   | [] => None
   | (n', e) :: d' => if str_eqb n' n then Some e else disk_get d' n
   end.
+Definition disk_find (d : disk) (n : str) : option centry :=
+  match find (fun p => str_eqb (fst p) n) d with Some (_, e) => Some e | None => None end.
 Definition disk_del (d : disk) (n : str) : disk := filter (fun p => negb (str_eqb (fst p) n)) d.
 Definition disk_put (d : disk) (n : str) (e : centry) : disk := (n, e) :: disk_del d n.
 
@@ -308,7 +310,9 @@ Definition set_hdrs (q : req) (h : hdrs) : req :=
 Definition key_uri (r : rule) (q : req) : str :=
   let u := parse_url (q_url q) in
   let u' := match attempt_match r (u_scheme u) (u_host u) (url_request_uri u) with
-            | Some dest => parse_url dest
+            | Some dest =>
+              (* the destination is asked with the client's query, also when the rule's destination has no $1 (fix F45) *)
+              let d := parse_url dest in mkUrl (u_scheme d) (u_host d) (u_path d) (u_query u) (u_force d)
             | None => u
             end in
   (* the host of the destination / redirect target is part of the keyed request-target *)
@@ -559,7 +563,15 @@ Fixpoint caching_func (fuel : nat) (c : mcfg) (st : mstate) (q : req) (override_
                 if nonempty clr then hset cleaned s_content_length clr else cleaned
               else hc in
           let body := rs_body rp in
-          let d4 := ms_disk st4 in
+          (* ChangeKey on a refresh: the entry that is being refreshed is renamed to the new key's name first (when
+             nothing is there yet), so the shared-key entry is gone whatever becomes of the new body (fix F46: the
+             new key's directories are created for that) *)
+          let d4 := if negb (str_eqb name' name) && reval then
+                      match disk_find (ms_disk st4) name, disk_find (ms_disk st4) name' with
+                      | Some e, None => disk_put (disk_del (ms_disk st4) name) name' e
+                      | _, _ => ms_disk st4
+                      end
+                    else ms_disk st4 in
           let opened := is_cacheable_status store_status in
           let invalidated := opened && do_not_cache (get_directives store_hdrs) in
           (* outcome on disk and whether a written file can be served *)
